@@ -218,6 +218,14 @@ func (sf *schemafier) schemafy(attr *expr.AttributeExpr, noref ...bool) *openapi
 			return sf.schemafy(t.Attribute())
 		}
 		h := sf.hashAttribute(attr, fnv.New64())
+		if rt, ok := t.(*expr.ResultTypeExpr); ok {
+			// The hash of a result type only depends on its identifier and
+			// view. Types computed from the same result type (e.g. the
+			// response bodies of two endpoints, one of which maps an attribute
+			// to a header) share both but not their attributes and must not
+			// share a schema.
+			h = orderedHash(h, sf.hashAttribute(rt.Attribute(), fnv.New64()), fnv.New64())
+		}
 
 		var metaName string
 		if n, ok := t.Attribute().Meta["openapi:typename"]; ok {
